@@ -38,6 +38,11 @@ def run(tier):
     for g in rndc.sample(prods, min(len(prods), 3000 if tier == "thorough" else 500)):
         name, opts = lin_cfgs[rndc.randrange(len(lin_cfgs))]
         cases.append({"id": len(cases), "gen": g, "cfgname": name, "opts": list(opts)})
+    # a^F with a functional expression F: the exponential stays with the solver (it takes ExpA), F is linearised
+    monos = [g for g in gen if g["kind"] == "mono"]
+    for g in rndc.sample(monos, min(len(monos), 2268 if tier == "thorough" else 400)):
+        name, opts = lin_cfgs[rndc.randrange(len(lin_cfgs))]
+        cases.append({"id": len(cases), "gen": g, "cfgname": name, "opts": [o for o in opts if not o.startswith("acc:expa=")]})
     recs, stats = cvtcases.run_and_record(exe, PID, cases)
     res = validate_parallel("TraceReform", "TraceReform.cfg", recs, os.path.join(SPECS, "flat"), "c01")
     verdicts = [v for r in res for v in printed_json(r, "VERDICT")]
